@@ -9,6 +9,7 @@ func init() {
 	vRegister("VH_C19_absolute", VH_C19_absolute)
 	vRegister("VH_C19_relative_fn", VH_C19_relative_fn)
 	vRegister("VH_C19_lemma", VH_C19_lemma)
+	vRegister("VH_C19_relative_frac", VH_C19_relative_frac)
 }
 
 func dig(s string, i int) int { return int(s[i] - '0') }
@@ -127,6 +128,22 @@ func VH_C19_lemma() {
 		vAssert("C19.lemma.seconds", int64(d.Seconds()) == secs)
 	}
 	vObserve("h", int64(d.Hours()))
+	vReach("end")
+}
+
+// The formatter on durations WITH a sub-second rest, on the real float64 code (no contract):
+// seconds in a small window [lo, lo+span), every nanosecond fraction.
+func VH_C19_relative_frac() {
+	lo, span := vParam("lo"), vParam("span")
+	off := int64(vU8("off"))
+	vAssume(off < int64(span))
+	secs := int64(lo) + off
+	frac := int64(vU32("frac"))
+	vAssume(frac < 1000000000)
+	d := time.Duration(secs*1000000000 + frac)
+	s := timeToSMPPTimeFormatRelative(d)
+	vObserve("s", s)
+	checkRelative("C19.relative-frac", s, secs)
 	vReach("end")
 }
 
